@@ -168,6 +168,8 @@ def build(tier="quick", seed=0):
                     it.assume(part_cond(part))
                 if shape == "two_fields":
                     it.assume(fn != fn2)
+                if entry == "avro_schema" and shape == "two_fields":
+                    return ENTRIES[entry]("ns.t", fields_v)  # (the derived name is symbolic in the one_field / no_field obligations; here the two field names are)
                 return ENTRIES[entry](SStr(nm), fields_v)
 
             n_exec = [0]
